@@ -122,9 +122,13 @@ func c20Run(ctx *core.Ctx) {
 			emit(c20Case{Kind: "accept", Accept: append([]string{}, parts...), Direct: true}) // end with Shutdown instead of Close
 		})
 		// connections that are still in their (implicit) TLS handshake, or idle, when Close / Shutdown fires
-		for _, st := range []string{"tls-stalled", "tls-half", "plain-idle", "plain-greeted", "starttls-stalled", "starttls-half"} {
+		for _, st := range []string{"tls-stalled", "tls-half", "plain-idle", "plain-greeted", "starttls-stalled", "starttls-half", "just-accepted"} {
 			for _, how := range []string{"Close", "Shutdown"} {
-				for rep := 0; rep < 3; rep++ {
+				nrep := 3
+				if st == "just-accepted" {
+					nrep = 40 // schedule dependent: the closer races the start of the connection's goroutine
+				}
+				for rep := 0; rep < nrep; rep++ {
 					emit(c20Case{Kind: "stalled", Transfer: st, Callback: how, Seed: uint64(rep)})
 				}
 			}
@@ -220,13 +224,13 @@ func c20Expired(ctx *core.Ctx, c c20Case) {
 		giveUp("c20expired")
 		lines, _ := c20Blocked()
 		fail("C20:shutdown-leaves-listener-open", fmt.Sprintf("Shutdown returned %v (context expired) but Serve keeps running: the listeners were not closed", serr), lines)
-		rig.Srv.Close()
+		rig.CloseBounded()
 		for _, p := range peers {
 			p.Close()
 		}
 		return
 	}
-	if err := rig.Srv.Close(); !errors.Is(err, smtp.ErrServerClosed) {
+	if err, ret := rig.CloseBounded(); ret && !errors.Is(err, smtp.ErrServerClosed) {
 		fail("C20:second-close-result", fmt.Sprintf("Close after Shutdown returned %v, expected ErrServerClosed", err), nil)
 	}
 	for _, p := range peers {
@@ -327,7 +331,13 @@ func c20Order(ctx *core.Ctx, c c20Case) {
 		case "X":
 			p.Close()
 		case "C":
-			rig.Srv.Close()
+			if _, ret := rig.CloseBounded(); !ret {
+				lines, _ := c20Blocked()
+				gate.OpenAll()
+				p.Close()
+				ctx.Violate("C20:close-does-not-return", fmt.Sprintf("Server.Close does not return [order=%v transfer=%s]", c.Order, c.Transfer), c, append(rig.Log.Strings(60), lines...))
+				return
+			}
 			closed = true
 		case "S":
 			if shutdownDone == nil {
@@ -508,6 +518,11 @@ func c20WaitConnClosed(l *rec.Log) {
 }
 
 func c20InCallback(ctx *core.Ctx, c c20Case) {
+	icClass := fmt.Sprintf("c20incallback|%s|%v", c.Callback, c.Direct)
+	if gaveUp(icClass) {
+		ctx.Add("cases_skipped_after_an_established_hang", 1)
+		return
+	}
 	ctx.Eval(fmt.Sprintf("incallback|%s|%v|%d", c.Callback, c.Direct, c.Seed), true)
 	rig := newRig(modeSMTP, nil)
 	gate := rec.NewGate()
@@ -555,6 +570,7 @@ func c20InCallback(ctx *core.Ctx, c c20Case) {
 		select {
 		case <-closeDone:
 		case <-time.After(wire.Watchdog):
+			giveUp(icClass)
 			lines, blocked := c20Blocked()
 			if blocked {
 				ctx.Violate("C20:close-deadlock:"+c.Callback, fmt.Sprintf("Server.Close does not return while/after a %s callback was in progress", c.Callback), c, append(rig.Log.Strings(60), lines...))
@@ -566,10 +582,16 @@ func c20InCallback(ctx *core.Ctx, c c20Case) {
 	}
 	p.ReadAll()
 	p.Close()
-	if !c.Direct {
-		// already closed
+	if _, ret := rig.CloseBounded(); !ret {
+		giveUp(icClass)
+		lines, blocked := c20Blocked()
+		if blocked {
+			ctx.Violate("C20:close-deadlock:"+c.Callback, fmt.Sprintf("Server.Close does not return: a %s callback that itself closes the server (direct=%v) left a lock held", c.Callback, c.Direct), c, append(rig.Log.Strings(60), lines...))
+		} else {
+			ctx.Inconclusive("C20 incallback Close watchdog")
+		}
+		return
 	}
-	rig.Srv.Close()
 	if _, ok := rig.WaitServe(); !ok {
 		lines, blocked := c20Blocked()
 		if blocked {
@@ -928,9 +950,14 @@ func c20Stalled(ctx *core.Ctx, c c20Case) {
 		}
 	}
 	rig.L.WaitDrained()
-	if idle, err := cEnd.WaitPeerIdle(wire.Watchdog); err != nil || !idle {
+	if c.Transfer == "just-accepted" {
+		// Accept has just handed the connection out: its goroutine may not even have started
+		for i := 0; i < int(c.Seed%4)*3; i++ {
+			runtime.Gosched()
+		}
+	} else if idle, err := cEnd.WaitPeerIdle(wire.Watchdog); err != nil || !idle {
 		cEnd.Close()
-		rig.Srv.Close()
+		rig.CloseBounded()
 		ctx.Inconclusive("C20 stalled: server did not park")
 		return
 	}
@@ -983,7 +1010,17 @@ func c20Stalled(ctx *core.Ctx, c c20Case) {
 	}
 	select {
 	case err := <-sd:
-		fail("C20:shutdown-returned-before-connections-ended", fmt.Sprintf("Shutdown returned %v while a connection was still open", err), nil)
+		// Legitimate only if the server itself has ended the connection (one that Accept handed
+		// out while Shutdown was already under way may be dropped instead of served).
+		idle, werr := cEnd.WaitPeerIdle(wire.Watchdog)
+		switch {
+		case werr != nil:
+			ctx.Inconclusive("C20 stalled/Shutdown: cannot tell whether the connection is served")
+		case idle:
+			fail("C20:shutdown-returned-before-connections-ended", fmt.Sprintf("Shutdown returned %v while a connection was still open and being served", err), nil)
+		default:
+			ctx.Add("connections_dropped_by_a_shutdown_under_way", 1)
+		}
 		cEnd.Close()
 		return
 	default:
